@@ -678,6 +678,19 @@ func openers() []Input {
 		{K: "end", Jump: "period", Votes: []Vote{good(0), {1, []Tuple{{0, "101500000000000000000"}}}, {2, []Tuple{{0, huge}}}}},
 		{K: "end", Jump: "period", Votes: []Vote{good(0), {1, []Tuple{{0, "101500000000000000000"}}}, {2, []Tuple{{0, rate(103)}}}}},
 	}})
+	// rates near the largest Dec: before 66a0ce3 Tally's median.Add(spread) overflowed and EndBlock panicked
+	limit := new(big.Int).Lsh(big.NewInt(1), 256)
+	limit.Mul(limit, e18)
+	limit.Sub(limit, big.NewInt(1))
+	out = append(out, Input{Params: base, WL: []int{0}, Vals: []string{ten}, Ops: []Op{
+		{K: "alloc", Coins: []string{"50", "0"}, N: 2},
+		{K: "end", Jump: "period", Votes: []Vote{{0, []Tuple{{0, limit.String()}}}}},
+		{K: "end", Jump: "period", Votes: []Vote{{0, []Tuple{{0, limit.String()}}}}},
+	}})
+	out = append(out, Input{Params: base, WL: []int{0, 1}, Vals: []string{ten, ten, ten}, Ops: []Op{
+		{K: "end", Jump: "period", Votes: []Vote{{0, []Tuple{{0, mulFrac(limit, 2, 3)}, {1, rate(200)}}}, {1, []Tuple{{0, mulFrac(limit, 2, 3)}, {1, rate(200)}}}, {2, []Tuple{{0, rate(100)}, {1, rate(300)}}}}},
+		{K: "end", Jump: "period", Votes: []Vote{good(0), good(1), bad(2)}},
+	}})
 	return out
 }
 
